@@ -29,7 +29,8 @@ BITS = {0: "correspondence: the model of the start-up disagrees with what the st
         2: "a start handed out objects that differ from those built from the data files",
         3: "after a start a consulted cache entry is not the complete pickle of the right object",
         4: "a start that follows a start (no damage in between) compiled or wrote something",
-        5: "decoder hypothesis contradicted: a truncated/emptied file unpickled, or a complete one did not"}
+        5: "decoder hypothesis contradicted: a truncated/emptied file unpickled, or a complete one did not",
+        6: "a start compiled for a call whose cache entry was valid (rebuilds more than what is damaged)"}
 OLD = 1_000_000_000          # mtime given to every file before a `sub` start
 
 
@@ -160,12 +161,13 @@ def wf_step_py(kind, arg, dirs):
 class Lab:
     """Scratch directories, reference bytes and reference objects."""
 
-    def __init__(self, src, steps, tag="", dirs=()):
+    def __init__(self, src, steps, tag="", dirs=(), schemas=()):
         from ..lib import env
         self.env = env
         self.src = src
         self.steps = steps                      # from the translator: [{"kind","arg","key","targets"}]
         self.dirs = list(dirs)                  # from the translator: [(directory, [files])]
+        self.schemas = list(schemas)            # from the translator: rc(schema=...) branches
         # every call that goes through the cache and that the code serves whatever the cache holds:
         # load_dvt with each accepted spelling of its path, Model(d) for every well-formed directory
         self.pool = [("dvt", a) for a in ("", "el", "evolaemp") if wf_step_py("dvt", a, self.dirs)] + \
@@ -260,6 +262,20 @@ class Lab:
         self._check_reference_files(d, allf, "the calls outside the import sequence")
         self.import_files = sorted(self.ref_bytes)          # what a plain start writes
         self.ref_bytes = allf
+
+    def schema_steps(self, v):
+        """The calls rc(schema=v) makes (first branch whose spellings contain v; none: no call)."""
+        for b in self.schemas:
+            if v in b["names"]:
+                return b["steps"]
+        return []
+
+    def expand(self, ops):
+        """ops with ("schema", v) entries -> the plain calls, in order"""
+        out = []
+        for kind, arg in ops:
+            out += [(s["kind"], s["arg"]) for s in self.schema_steps(arg)] if kind == "schema" else [(kind, arg)]
+        return out
 
     # -- labelling ---------------------------------------------------------------------------
     def content(self, fname, b):
@@ -382,6 +398,9 @@ class Lab:
                     for kind, arg in ops:
                         if kind == "dvt":
                             M.load_dvt(arg)
+                        elif kind == "schema":
+                            S.load_dvt = ldvt          # rc() uses the names settings.py imported
+                            S.rc(schema=arg)
                         else:
                             M.Model(arg)
             except BaseException as e:     # noqa: whatever leaves the module-level code
@@ -393,6 +412,7 @@ class Lab:
             o_load.__defaults__, o_dump.__defaults__, o_path.__defaults__ = o_defaults
             M.compile_model, M.compile_dvt, M.load_dvt = o_cm, o_cd, o_ldvt
             M.Model.__init__ = o_init
+            S.load_dvt = o_ldvt
         vals = []
         for kind, arg, o in objs:
             if kind == "dvt":
@@ -418,7 +438,7 @@ class Lab:
         e = self.env.subprocess_env(hashseed, cache=home)
         e["PYTHONPATH"] = self.src + os.pathsep + self.env.VERIF
         req = json.dumps({"steps": [{"kind": s["kind"], "arg": s["arg"], "key": s["key"], "targets": s["targets"]}
-                                    for s in self.steps], "ops": ops})
+                                    for s in self.steps], "ops": ops, "schemas": self.schemas})
         p = subprocess.run([self.env.PY, "-m", "harness.comp.cache", "--child", req], cwd=self.env.VERIF, env=e,
                            capture_output=True, text=True, timeout=300)
         out = None
@@ -429,7 +449,7 @@ class Lab:
             out = {"ok": False, "error": "child died rc=%s: %s" % (p.returncode, p.stderr[-600:]), "vals": []}
         vals = []
         if out["ok"]:
-            calls = [(s["kind"], s["arg"]) for s in self.steps] + [tuple(o) for o in ops]
+            calls = [(s["kind"], s["arg"]) for s in self.steps] + self.expand([tuple(o) for o in ops])
             for (kind, arg), v in zip(calls, out["vals"]):
                 if kind == "dvt":
                     vals.append(("dvt", self.val_label(2, dvt_dir(arg), v[0])))
@@ -475,7 +495,7 @@ def run_case(lab, case, workdir=None):
             specs = ["import"] * specs
         for sp in specs:                 # "import" | {"ops": [[kind, arg], ...]}
             ops = None if sp == "import" else [tuple(o) for o in sp["ops"]]
-            if ops is not None and not all(tuple(o) in lab.pool for o in ops):
+            if ops is not None and not all(o in lab.pool for o in lab.expand(ops)):
                 raise RuntimeError("call outside the pool of modelled calls: %s" % (ops,))
             starts.append(lab.start_sub(home, case.get("hashseed", 0), ops) if sub else lab.start_inproc(d, ops))
         rounds.append({"dir": dir0, "files": files0, "dec": dec, "starts": starts})
@@ -573,12 +593,29 @@ def _step(o):
     return "(%s %s)" % ("LoadDvt" if o[0] == "dvt" else "NewModel", _str(o[1]))
 
 
+def _ops_seq(ops):
+    """ops (plain calls and ("schema", v)) -> Gallina list step; the branch of a schema switch is
+    selected in Coq from the regenerated table, not here"""
+    segs, plain = [], []
+    for o in ops:
+        if o[0] == "schema":
+            if plain:
+                segs.append(L.lst([_step(x) for x in plain]))
+                plain = []
+            segs.append("schema_seq LVGen.SettingsModels.schema_seqs %s" % _str(o[1]))
+        else:
+            plain.append(o)
+    if plain or not segs:
+        segs.append(L.lst([_step(x) for x in plain]))
+    return segs
+
+
 def _seq(s):
     if s == "import":
         return "LVGen.SettingsModels.import_seq"
     if isinstance(s, dict):
-        return "(LVGen.SettingsModels.import_seq ++ %s)%%list" % L.lst([_step(o) for o in s["import_plus"]])
-    return _memo("list step", L.lst([_step(o) for o in s]))
+        return "(%s)%%list" % " ++ ".join(["LVGen.SettingsModels.import_seq"] + _ops_seq(s["import_plus"]))
+    return _memo("list step", "(%s)%%list" % " ++ ".join(_ops_seq(s)))
 
 
 def _sval(v):
@@ -678,7 +715,19 @@ def _child(req):
                 out["vals"].append(model_vals(rcParams[st["key"]]))
         from lingpy.data.model import Model, load_dvt
         for kind, arg in req["ops"]:         # calls made after the import, in the same interpreter
-            out["vals"].append([digest(load_dvt(arg)), None] if kind == "dvt" else model_vals(Model(arg)))
+            if kind == "schema":
+                S.rc(schema=arg)
+                for b in req["schemas"]:
+                    if arg in b["names"]:
+                        for st in b["steps"]:
+                            if st["kind"] == "dvt":
+                                out["vals"].append([digest((rcParams["diacritics"], rcParams["vowels"],
+                                                            rcParams["tones"])), None])
+                            else:
+                                out["vals"].append(model_vals(rcParams[st["key"]]))
+                        break
+            else:
+                out["vals"].append([digest(load_dvt(arg)), None] if kind == "dvt" else model_vals(Model(arg)))
     except BaseException as e:               # noqa
         out = {"ok": False, "vals": [], "error": "%s: %s" % (type(e).__name__, e)}
     sys.stdout.write("\nC20CHILD " + json.dumps(out) + "\n")
